@@ -2,6 +2,7 @@
 # usage: tools/try_patch.sh <patch-file | rev:<commit>> <prop> [<prop>...]
 # applies the change to /repo's working tree, runs the given checks (quick), and always restores /repo
 P=$1; shift
+case "$P" in rev:*) ;; /*) ;; *) P="$PWD/$P";; esac
 cd /repo || exit 2
 if [ -n "$(git status --porcelain --untracked-files=no)" ]; then echo "repo dirty"; exit 2; fi
 if [[ "$P" == rev:* ]]; then
